@@ -1002,6 +1002,7 @@ fn replay(ctx: &Ctx, case: &Value) -> Outcome {
             control_words(&mut cov, &mut all);
             viol.extend(all.into_iter().filter(|v| &v.case == case));
         }
+        Some("long_list") => crate::longlist::replay(case, &mut cov, &mut viol),
         Some("repdef_file") => {
             crate::c27_file::replay(ctx, case, &mut cov, &mut viol);
         }
@@ -1112,7 +1113,7 @@ pub fn run(ctx: &Ctx) -> Outcome {
     let exhaustive = !capped.load(std::sync::atomic::Ordering::SeqCst) && file_scope["capped"] != json!(true);
     cov.fill(
         &mut out,
-        "rep/def API: every stack of depth<=3 over {list,struct,fsl(2)} (FSL only without lists) x every tuple of <= max_rows row values (list length 0..=2, NULL, NULL-with-garbage, NULL/valid at every level) x builder configurations x {one builder, two builders, two unravelers at every split}; control words: 15x15 (max_rep,max_def) x visible levels x boundary level pairs; files: see file_scope. non-trivial = input holds at least one NULL/empty and at least one leaf item",
+        "rep/def API: every stack of depth<=3 over {list,struct,fsl(2)} (FSL only without lists) x every tuple of <= max_rows row values (list length 0..=2, NULL, NULL-with-garbage, NULL/valid at every level) x builder configurations x {one builder, two builders, two unravelers at every split}; control words: 15x15 (max_rep,max_def) x visible levels x boundary level pairs; files: see file_scope (incl. the long-list family: rows of 4097 / 10000 items spanning several mini-block chunks). non-trivial = input holds at least one NULL/empty and at least one leaf item",
         exhaustive,
     );
     if !exhaustive {
